@@ -6,6 +6,9 @@ import (
 
 	sdk "github.com/cosmos/cosmos-sdk/types"
 	"pgregory.net/rapid"
+
+	basetypes "github.com/regen-network/regen-ledger/x/ecocredit/v3/base/types/v1"
+	baskettypes "github.com/regen-network/regen-ledger/x/ecocredit/v3/basket/types/v1"
 )
 
 // Profile extras used by generators.
@@ -53,6 +56,8 @@ func (w *World) Step(kind string) {
 		a := w.anyAcct("faucet")
 		d := pickOf(w, "faucetdenom", BankDenoms)
 		w.Faucet(a, sdk.NewCoins(sdk.NewInt64Coin(d, int64(1+w.intn("faucetamt", 1_000_000_000)))))
+	case "bulkBasket":
+		w.bulkBasket()
 	default:
 		if h, ok := w.Profile.Custom[kind]; ok {
 			h(w)
@@ -205,4 +210,66 @@ func (w *World) remapOnce(kind string) string {
 		return kind
 	}
 	return need
+}
+
+// bulkBasket is a macro step: it fills one basket with 21-28 batches of one project (distinct
+// start dates, deposited in scrambled order). Every message goes through Deliver, i.e. through
+// the monitors, like any other. It reaches states (a basket with dozens of batches, as real
+// baskets have) that 40-70 independent random steps do not.
+func (w *World) bulkBasket() {
+	s := w.S
+	// a project whose class has an issuer among the users
+	var pid, cid, ct string
+	var issuer sdk.AccAddress
+	for _, p := range s.Projects {
+		c := s.ClassByKey(p.ClassKey)
+		if c == nil {
+			continue
+		}
+		for _, is := range w.issuersOf(c.Key) {
+			if w.isUser(is) {
+				pid, cid, ct, issuer = p.Id, c.Id, c.CreditTypeAbbrev, sdk.AccAddress(is)
+			}
+		}
+	}
+	if pid == "" {
+		w.Step("createProject")
+		return
+	}
+	w.Flags["bulk-basket"] = true
+	holder := w.anyAcct("bulk.holder")
+	n := 21 + w.intn("bulk.n", 8)
+	type item struct {
+		denom string
+		amt   string
+	}
+	var items []item
+	for i := 0; i < n; i++ {
+		start := time.Date(2001+w.intn(fmt.Sprintf("bulk.y%d", i), 20), time.Month(1+w.intn(fmt.Sprintf("bulk.m%d", i), 12)), 1+w.intn(fmt.Sprintf("bulk.d%d", i), 28), 0, 0, 0, 0, time.UTC)
+		end := start.AddDate(1, 0, 0)
+		amt := fmt.Sprintf("%d", 1+w.intn(fmt.Sprintf("bulk.a%d", i), 9))
+		st := w.Deliver("createBatch", &basetypes.MsgCreateBatch{Issuer: issuer.String(), ProjectId: pid, Metadata: "bulk", StartDate: &start, EndDate: &end,
+			Issuance: []*basetypes.BatchIssuance{{Recipient: holder.String(), TradableAmount: amt}}})
+		if resp, ok := st.Res.RespMsg.(*basetypes.MsgCreateBatchResponse); ok && st.Res.OK {
+			items = append(items, item{resp.BatchDenom, amt})
+		}
+	}
+	curator := w.anyAcct("bulk.curator")
+	name := fmt.Sprintf("K%d", 1000+w.StepIdx)
+	m := &baskettypes.MsgCreate{Curator: curator.String(), Name: name, CreditTypeAbbrev: ct, AllowedClasses: []string{cid}, DisableAutoRetire: w.chance("bulk.dar", 60)}
+	if f := w.RequiredBasketFee(); f != nil && f.Amount.IsPositive() {
+		m.Fee = sdk.Coins{*f}
+	}
+	st := w.Deliver("basketCreate", m)
+	resp, ok := st.Res.RespMsg.(*baskettypes.MsgCreateResponse)
+	if !st.Res.OK || !ok {
+		return
+	}
+	// deposit in scrambled order
+	for len(items) > 0 {
+		i := w.intn("bulk.pick", len(items))
+		it := items[i]
+		items = append(items[:i], items[i+1:]...)
+		w.Deliver("put", &baskettypes.MsgPut{Owner: holder.String(), BasketDenom: resp.BasketDenom, Credits: []*baskettypes.BasketCredit{{BatchDenom: it.denom, Amount: it.amt}}})
+	}
 }
